@@ -1735,11 +1735,22 @@ def c16_running(ctx):
               "__call__ does work before (or without) the running test-and-set", key=None if rc else PAR + "::Parallel.__call__::_reset_run_tracking call")
     for q in ("Parallel._get_outputs", "Parallel._get_sequential_output"):
         fn = F(ctx, q)
-        tr = _final_try(fn)
-        ctx.need(tr is not None, "%s has no try/finally" % q)
-        cl = [a for a in tr.finalbody if isinstance(a, ast.Assign) and "self._running" in stores_to(a) and is_const(a.value, False)]
-        ctx.check(bool(cl), cl[0] if cl else tr, "%s clears _running in finally (normal end, error, generator close)" % q,
-                  "%s does not clear _running in finally" % q, key=None if cl else "%s::%s::finally clears _running" % (PAR, q))
+        gq = cfg_of(fn)
+        cl = [a for a in nodes_of_type(fn, ast.Assign) if "self._running" in stores_to(a) and is_const(a.value, False)]
+        # every way out of the generator body (normal end, an exception of a task, GeneratorExit at a yield) passes a store
+        # `_running = False`: decided on the CFG, so a `finally` and an equivalent set of handlers are the same thing
+        first_try = [t_ for t_ in nodes_of_type(fn, ast.Try)]
+        ok = bool(cl) and bool(first_try)
+        if ok:
+            body_nodes = set()
+            for st_ in first_try[0].body:
+                for n_ in ast.walk(st_):
+                    body_nodes.update(gq.by_ast.get(id(n_), []))
+            starts = [n_ for n_ in body_nodes]
+            ok = gq.every_path_from(starts, gq.nodes_of_all(cl), to={gq.exit, gq.xexit}) if starts else False
+        ctx.check(ok, cl[0] if cl else fn, "%s clears _running on every way out (normal end, error, generator close)" % q,
+                  "%s can be left (normal end, exception or GeneratorExit) without clearing _running: every later call on the same object is rejected as 'already running'" % q,
+                  key=None if cl else "%s::%s::finally clears _running" % (PAR, q))
     # who may clear the flag: only the end of a run
     n_clear = 0
     for fn in _par_methods(ctx):
@@ -1747,7 +1758,12 @@ def c16_running(ctx):
             if any(_state_attr(t_) == "_running" for t_ in stores_to(a)) and not is_const(a.value, True):
                 n_clear += 1
                 tr_ = _final_try(fn) if fn._qualname in ("Parallel._get_outputs", "Parallel._get_sequential_output") else None
-                ok = fn._qualname == "Parallel.__init__" or (tr_ is not None and a in tr_.finalbody)
+                in_end = tr_ is not None and a in tr_.finalbody
+                if not in_end and fn._qualname in ("Parallel._get_outputs", "Parallel._get_sequential_output"):
+                    # the equivalent without `finally`: in a handler of the run's try, or after it
+                    trs_ = nodes_of_type(fn, ast.Try)
+                    in_end = bool(trs_) and (any(in_block(a, h_.body) for h_ in trs_[0].handlers) or not in_block(a, trs_[0].body))
+                ok = fn._qualname == "Parallel.__init__" or in_end
                 ctx.check(ok, a, "_running is cleared at the end of a run (%s)" % fn._qualname,
                           "_running is cleared in %s, outside the end-of-run finally: a rejected overlapping call (or a failed set-up) wipes the flag of the live run" % fn._qualname)
     ctx.floor(n_clear, 2, "sites clearing _running")
